@@ -65,29 +65,37 @@ def gen_run(rng):
     for _ in range(nt - 1):
         times.append(times[-1] + rng.choice([1.0, 2.0, 0.5, 4.0]))
     span = times[1] - times[0]
-    minTs = rng.choice([-1.0, -1.0, span / 64, span / 1024])
+    minTs = rng.choice([-1.0, -1.0, span / 1024, span / 4096])
     maxTs = rng.choice([-1.0, -1.0, span / 2, span])
     minF = rng.choice([-1.0, 0.125, 0.25])
     maxF = rng.choice([-1.0, 1.5, 2.0])
     na = 120
-    pfail = rng.choice([0.0, 0.08, 0.15, 0.25, 0.35])
+    pfail = rng.choice([0.04, 0.08, 0.12, 0.18, 0.25])
     atts = []
     burst = 0
-    for _ in range(na):
+    head = rng.choice([2, 4, 8])
+    for ia in range(na):
         if burst > 0:
             burst -= 1
             fail = True
         else:
-            fail = rng.random() < pfail
+            # failures are concentrated on the first attempts (the cascade of halved steps that follows
+            # would otherwise exhaust the sub-steps), sparse afterwards
+            fail = rng.random() < (0.7 if ia == 0 else (max(pfail, 0.35) if ia < head else pfail / 3))
             if fail and rng.random() < 0.3:
                 burst = rng.randint(1, 3)       # nested sub-stepping
         if fail:
             kind = rng.choice([1, 1, 2, 3, 4, 0])
-            at = rng.randint(1, 4) if kind != 0 else iterMax + 2     # kind 0 with a late convergence = no convergence
+            # an integration failure must happen before the attempt converges (iteration 2 without prediction, 1 with)
+            at = (rng.randint(1, 2) if pp == 0 else 1) if kind != 0 else iterMax + 2   # kind 0 converging too late = no convergence
         else:
             kind = 0
             at = rng.randint(1, min(iterMax, 5))
-        f = rng.choice([0.5, 0.25, 0.75, 1.0, 1.0, 1.0, 1.5, 2.0]) if dyn else rng.choice([1.0, 0.5])
+        if dyn:
+            # in dynamic mode a successful attempt proposing a factor below one is a rejection too
+            f = rng.choice([0.5, 0.25, 0.75, 1.0]) if fail else rng.choice([1.0] * 8 + [1.5, 2.0, 1.25, 0.75])
+        else:
+            f = rng.choice([1.0, 0.5])
         atts.append((kind, f, at))
     line = "run %d %d %d %d %s %d %s %s %s %s %d %s %d %s" % (
         1 if dyn else 0, mSub, iterMax, pp, aa, ni, hx(minTs), hx(maxTs), hx(minF), hx(maxF), nt,
